@@ -5,7 +5,7 @@ _SRC = 'harness/C06_xfm.cpp'
 
 def _b(name, part):
     # one source, six binaries: -DC06_PART selects which register_partN() instantiates its templates
-    return rc(name, _SRC, None, flags='-DC06_PART=%d' % part, thorough=dict(scale=5, seeds=3))
+    return rc(name, _SRC, None, flags='-DC06_PART=%d' % part, thorough=dict(scale=4, seeds=3))
 
 
 PROP = dict(
@@ -19,7 +19,7 @@ PROP = dict(
          'in harness.*.max_err_over_tol); non-trivial = the matrix is not diagonal / the rotation axis is not a '
          'coordinate axis and the angle is not 0 / all quaternion components are non-zero (and 0<t<1 for slerp); '
          'distinct by hash of the case',
-    floor=dict(quick=100000, thorough=1000000),
+    floor=dict(quick=400000, thorough=4000000),
     assumptions=TRUST,
     parallel=9,
     bins=[
